@@ -16,6 +16,8 @@ def check(ctx):
     # R6: override scope = shared truth tables of C10 (first forward pass only, frame 0 only)
     c10.rules_override_scope(ctx, prefix="R6")
     # the animator's timelines are merged timelines: the blend must reach every component (C12/R2)
+    from rules import c09
+    c09.rule_override(ctx, ctx.facts, "R6")      # the blended start frame carries exactly the values held at the switch
     from rules import c12
     c12.check_loop_method(ctx, ctx.facts, "R8", "start_with", mutable=True)
     # ... and, in a generated timeline, every animated property (C17/G6)
